@@ -833,7 +833,7 @@ AT_LINES = [
     b'AT+CMEE=1\r', b'AT+BIEV=1,1\r', b'AT+CHUP\r', b'AT+COPS=3,0\r', b'AT+COPS?\r', b'AT+NREC=0\r',
     b'AT+BVRA=1\r', b'AT+CLIP=1\r', b'AT+CCWA=1\r', b'AT+CHLD=1\r', b'AT+BCS=1\r', b'AT+BCC\r', b'AT+BIA=1,1,1\r',
     b'AT+VTS=1\r', b'AT+CNUM\r', b'AT+BLDN\r', b'AT+VGM=3\r', b'AT+CKPD=200\r', b'AT+XAPL=ABCD-1234-0100,10\r',
-    b'AT+BIND=(1,(2,3)),"x"\r', b'AT+CMER=3, 0, 0, 1\r',
+    b'AT+BIND=(1,(2,3)),"x"\r', b'AT+CMER=3, 0, 0, 1\r', b'AT+CIND?\r\n', b'\r\nAT+CIND=?\r\n', b'AT+VGS=7\r\r',
 ]
 HF_LINES = [
     b'\r\nOK\r\n', b'\r\nERROR\r\n', b'\r\n+CME ERROR: 3\r\n', b'\r\n+CIEV: 1,1\r\n', b'\r\n+BRSF: 1023\r\n',
@@ -841,7 +841,7 @@ HF_LINES = [
     b'\r\n+CLCC: 1,0,0,0,0,"123",129\r\n', b'\r\nRING\r\n', b'\r\n+CLIP: "123",129\r\n', b'\r\n+BCS: 1\r\n',
     b'\r\n+VGS: 5\r\n', b'\r\n+BIND: (1,2)\r\n', b'\r\n+BIND: 1,1\r\n', b'\r\n+CHLD: (0,1,2)\r\n',
     b'\r\n+COPS: 0,0,"op"\r\n', b'\r\n+BSIR: 1\r\n', b'\r\n+CCWA: "123",129\r\n', b'\r\n+BVRA: 1\r\n',
-    b'\r\nNO CARRIER\r\n', b'\r\nBUSY\r\n',
+    b'\r\nNO CARRIER\r\n', b'\r\nBUSY\r\n', b'\r\n\r\nOK\r\n', b'\r\n+VGS: 7\r\n\r\n',
 ]
 OTHER_CIDS_LE = [1, 2, 3, 7, 0x003A, 0x0040, 0x007F, 0xFFFF, 0]
 OTHER_CIDS_CLASSIC = [3, 4, 5, 6, 0x003F, 0x0040, 0x0041, 0xFFFF, 0]
@@ -1153,7 +1153,7 @@ def mutated(draw, chan: str, seed: bytes) -> list:
     for _ in range(nops):
         ops = ['truncate', 'extend', 'flip', 'setlen', 'dupslice', 'dupframe', 'byte']
         if text:
-            ops += ['split', 'unterminate', 'overlong', 'badutf8', 'split', 'unterminate']
+            ops += ['split', 'unterminate', 'overlong', 'badutf8', 'split', 'unterminate', 'blank', 'blank']
         op = draw(st.sampled_from(ops))
         n = len(data)
         if op == 'truncate':
@@ -1196,6 +1196,12 @@ def mutated(draw, chan: str, seed: bytes) -> list:
             k = draw(st.sampled_from([64, 300, 2000, 9000]))
             i = draw(st.integers(0, n))
             data = data[:i] + draw(st.sampled_from([b'A', b'1', b',', b'(', b'"', b' ', b'+'])) * k + data[i:]
+        elif op == 'blank':
+            # empty / whitespace-only lines and doubled terminators, at the start, at the end or at a line boundary
+            filler = draw(st.sampled_from([b'\r', b'\r\n', b'\r\r', b' \r', b'\n\r', b'\r\n\r\n', b'\t \r', b'\n', b'\r\n\r']))
+            spots = [0, n] + [i + 1 for i in range(n) if data[i:i + 1] in (b'\r', b'\n')]
+            i = draw(st.sampled_from(spots))
+            data = data[:i] + filler + data[i:]
         elif op == 'badutf8':
             i = draw(st.integers(0, n))
             data = data[:i] + draw(st.sampled_from(BAD_UTF8)) + data[i:]
